@@ -282,8 +282,8 @@ static void *driver(void *a) {
 	size_t ns[] = {0, 1, 2, cpus0 - 1, cpus0, cpus0 + 1, 1000, 3, 64, 257};
 	for (int r = 0; r < d->rounds; r++) {
 		uint64_t x = sm(&s); int kind = (int)(x % NKIND); size_t n = ns[(x >> 8) % (sizeof ns / sizeof *ns)];
-		int rec = 1;
-		if (r < d->big) { n = (r & 1) ? 100000 : 1000; kind = (int)((x >> 40) % NKIND); rec = n <= 1000; }
+		if (r < d->big) { n = (r & 1) ? 100000 : 1000; kind = (int)((x >> 40) % NKIND); }
+		int rec = n <= 300;
 		if (zoo_serial[kind] && n > 1000) n = 1000;
 		if (d->id == 0 && ((x >> 16) & 3) == 0) set_cpus((uint32_t[]){2, 3, 5, 24}[(x >> 20) & 3]); else if (d->id == 0) set_cpus(cpus0);
 		run_apply(0, kind, n, x, rec);
